@@ -168,6 +168,7 @@ type invInfo struct {
 	failedFn int // function whose own error/panic failed the Invoke (-1 none)
 	selfFail bool
 	hadDec   bool // a decorator is in the may-closure
+	foreign  bool // a user function failed with an error/panic value wrapping ANOTHER container's dig error
 	av       int
 	cyc      bool
 }
@@ -182,6 +183,12 @@ func (m *Monitor) checkDot(i int, op *Op, rec *OpRec, verr error) {
 	var info *invInfo
 	if op.VisErrOf > 0 {
 		info = m.invInfos[op.VisErrOf-1]
+	}
+	if info != nil && info.foreign && verr != nil {
+		// the error chain carries visualisation data of a different container: what a picture of THIS
+		// container should show for it is outside C19's claim (DESIGN 10); only well-formedness was checked
+		m.stats["dot.foreign-error-excluded"]++
+		return
 	}
 	plain := verr == nil || info == nil || info.selfFail
 	if op.VisErrOf > 0 && info != nil {
